@@ -59,7 +59,7 @@ def reviewedUnwrapped : List WrapRow := [
   ("Array.notifyParentIfNeeded", "func", "parentUpdater", "raw"),
   -- exported helper that the CALLER's StorableDecoder calls for the compact-map tag; the error goes back through the caller's decoder to a library call site of `StorableDecoder`, all of which wrap (rows below). Its twins DecodeInlinedArrayStorable / DecodeInlinedMapStorable wrap at once (observation: inconsistent, harmless)
   ("DecodeInlinedCompactMapStorable", "func", "StorableDecoder", "raw"),
-  -- NOT JUSTIFIED - the code as it is: map.go `OrderedMap.Iterator` returns the error of the first key's `StoredValue` as it is (finding W1 of INTEGRATION-fx13.md: a failing caller-supplied key storable surfaces uncategorised from the mutable map iterator constructor; every other `StoredValue` site wraps)
+  -- NOT JUSTIFIED - the code as it is: map.go `OrderedMap.Iterator` returns the error of the first key's `StoredValue` as it is (finding F7 of known_findings.txt, W1 of INTEGRATION-fx13.md: a failing caller-supplied key storable surfaces uncategorised from the mutable map iterator constructor; every other `StoredValue` site wraps)
   ("OrderedMap.Iterator", "MapKey", "StoredValue", "raw"),
   -- as Array.String
   ("OrderedMap.String", "MapIterator", "Next", "other:err.Error()"),
